@@ -20,7 +20,13 @@ class C06(ProgProp):
             nv = self.variants_quick if tier == "quick" else self.variants_thorough
             return {"spec": spec, "variants": [{"conv": ["call", "value", "wrapped"][i % 3], "prio": g.gen_prio(rng, spec["kinds"])}
                                                for i in range(nv)]}
-        return ProgProp.gen(self, rng, tier, k)
+        case = ProgProp.gen(self, rng, tier, k)
+        if rng.random() < 0.15:
+            # a context whose resume() raises when its suspended task is resumed: the task fails;
+            # every other context it holds must still end paused
+            case["spec"].setdefault("faults", {}).setdefault("ctx", {})["#%d" % rng.randint(1, 4)] = ["resume", rng.randint(2, 3)]
+            case["spec"]["ctx_fault"] = True
+        return case
 
 
 PROP = C06()
